@@ -2,11 +2,13 @@
 use crate::engine::Outcome;
 use serde_json::Value;
 
-pub const ENGINES: &[&str] = &["C13"];
+pub const ENGINES: &[&str] = &["C13", "C16"];
 
 pub fn cases(engine: &str, run_seed: u64, tier: &str, scratch: &str) -> Vec<Value> {
     match engine {
         "C13" => crate::c13::cases(run_seed, tier, scratch),
+        #[cfg(umya_verif_sched)]
+        "C16" => crate::c16::cases(run_seed, tier, scratch),
         _ => Vec::new(),
     }
 }
@@ -14,6 +16,8 @@ pub fn cases(engine: &str, run_seed: u64, tier: &str, scratch: &str) -> Vec<Valu
 pub fn execute(case: &Value, scratch: &str) -> Outcome {
     match case["engine"].as_str().unwrap_or("") {
         "C13" => crate::c13::execute(case, scratch),
+        #[cfg(umya_verif_sched)]
+        "C16" => crate::c16::execute(case, scratch),
         e => Outcome { harness_error: Some(format!("unknown engine {:?}", e)), ..Default::default() },
     }
 }
@@ -22,6 +26,29 @@ pub fn execute(case: &Value, scratch: &str) -> Outcome {
 pub fn shrink_keys(engine: &str) -> &'static [&'static str] {
     match engine {
         "C13" => &["faults", "ops"],
+        "C16" => &["clone_ops", "base_ops", "savers"],
         _ => &["ops"],
     }
+}
+
+/// Candidate preparation for the minimiser: engines whose failure depends on a searched schedule
+/// re-search it for every shrunk workload.
+pub fn prepare_candidate(case: &Value) -> Value {
+    let mut c = case.clone();
+    if case["engine"] == "C16" {
+        c["sched"]["mode"] = serde_json::json!("search");
+        c["sched"]["tries"] = serde_json::json!(40);
+        c["schedule"] = Value::Null;
+    }
+    c
+}
+
+/// After minimisation: pin the schedule that failed so that replay is exact.
+pub fn finalise(case: &Value, o: &Outcome) -> Value {
+    let mut c = case.clone();
+    if case["engine"] == "C16" {
+        c["sched"]["mode"] = serde_json::json!("replay");
+        c["schedule"] = o.record["schedule"].clone();
+    }
+    c
 }
